@@ -88,7 +88,7 @@ type c35Case struct {
 	Height     uint64         `json:"height"` // height of the node's last accepted block
 	Delta      int64          `json:"delta"`  // block timestamp = Min + Delta
 	Chunks     []c35ChunkSpec `json:"chunks"`
-	ExtraExp   []int64        `json:"extra"` // expiry offsets of valid chunks that are NOT in the block (material for "wrong" answers)
+	ExtraExp   []int64        `json:"extra"`  // expiry offsets of valid chunks that are NOT in the block (material for "wrong" answers)
 	VerifyGate bool           `json:"verify"` // call Node.Verify before Accept, as consensus does
 }
 
